@@ -354,3 +354,20 @@ Proof.
   intros HE Hp Hr. exists (pp_out re_ok r). rewrite (preprocessed_store_same_evaluation re_ok re_match o E P c HE f Hp), Hr.
   split; [reflexivity|]. unfold pp_out; simpl. rewrite map_length. auto.
 Qed.
+
+(* non-vacuity: a store with a flag (one user target list, one rule with an "in" clause) and a segment (lists and a rule)
+   built by hand without precomputed data meets the hypotheses *)
+Example plain_store_exists :
+  let cl := mkclause [] (new_literal_ref (s "email")) op_in [JStr (s "a"); JStr (s "b")] false cpre_none in
+  let vr := mkvorr (Some 0) (mkrollout [] [] [] ref_undef None) in
+  let f := mkflag (s "f") true [] [mktarget [] [s "u1"; s "u2"] 1 None] [] [mkrule vr (s "r") [cl] false] vr None [JBool true; JBool false] [] false false
+                  (mkfmeta 0 false false 0 false false false None None) in
+  let sg := mksegment (s "sg") [s "u1"] [s "u3"] [mksegtarget (s "org") [s "o1"] None] [] (s "salt") [mksegrule (s "sr") [cl] None ref_undef []]
+                      false [] 1 None false None None in
+  plain_flag f /\ plain_env (mkenv [(s "f", f)] [(s "sg", sg)]).
+Proof.
+  cbv zeta. split; [|split].
+  - split; repeat constructor.
+  - repeat constructor.
+  - constructor; [|constructor]. cbn [snd]. repeat split; repeat constructor.
+Qed.
